@@ -4,6 +4,7 @@ package cluster
 
 import (
 	"fmt"
+	"os"
 	"sort"
 	"strings"
 	"sync"
@@ -88,6 +89,7 @@ type cnode struct {
 	joined  bool // this instance has successfully joined through a peer (or formed the cluster)
 	dep     depKind
 	everRan bool
+	everLeft bool // some earlier life of this member ended in a graceful leave
 	mu      sync.Mutex
 	learned map[string]bool // subjects this instance had a member event for
 	// life of the subject (its start counter) at the last join event this
@@ -202,7 +204,78 @@ func wrongViews(nodes []*cnode) []string {
 	return bad
 }
 
+// scenResult is what one execution of a scenario reports.
+type scenResult struct {
+	labels  []string
+	nontriv bool
+	incon   string
+	sig     string
+	detail  string
+	known   bool
+}
+
+func (r *scenResult) Label(l string)             { r.labels = append(r.labels, l) }
+func (r *scenResult) Labelf(f string, a ...any)  { r.labels = append(r.labels, fmt.Sprintf(f, a...)) }
+func (r *scenResult) NonTrivial(b bool)          { r.nontriv = r.nontriv || b }
+func (r *scenResult) Inconclusive(reason string) { r.incon = reason }
+func (r *scenResult) Violationf(sig, f string, a ...any) {
+	if r.sig == "" {
+		r.sig, r.detail = sig, fmt.Sprintf(f, a...)
+	}
+}
+
+// bodyC01 runs the scenario; a violation candidate is only reported if it
+// shows again in at least two of three re-runs of the same scenario. Memberlist
+// timing is not owned by the harness: on the unchanged tree about one scenario
+// in a thousand ends in a wrong-but-stable view that never shows again when the
+// very same scenario is replayed (restart races between a node's new memberlist
+// incarnation and its peers' record of the old one). Genuine defects of the
+// kind this check can see at all re-appear readily.
 func bodyC01(c c01Case, x *vkit.Ctx) {
+	r := runScenarioC01(c)
+	for _, l := range r.labels {
+		x.Label(l)
+	}
+	x.NonTrivial(r.nontriv)
+	if r.incon != "" {
+		x.Inconclusive(r.incon)
+		return
+	}
+	if r.sig == "" {
+		return
+	}
+	again := 0
+	var reruns []string
+	for i := 0; i < 3; i++ {
+		if i == 2 && again == 0 {
+			break // two more re-runs can no longer be reached
+		}
+		rr := runScenarioC01(c)
+		switch {
+		case rr.sig != "":
+			again++
+			reruns = append(reruns, rr.sig)
+		case rr.incon != "":
+			reruns = append(reruns, "inconclusive:"+rr.incon)
+		default:
+			reruns = append(reruns, "ok")
+		}
+	}
+	if again >= 2 {
+		x.Violationf(r.sig, "%s [re-runs of the same scenario: %v]", r.detail, reruns)
+		return
+	}
+	x.Label("unreproduced-candidate:" + r.sig)
+	x.Inconclusive("unreproduced-candidate")
+}
+
+func runScenarioC01(c c01Case) *scenResult {
+	x := &scenResult{}
+	scenarioC01(c, x)
+	return x
+}
+
+func scenarioC01(c c01Case, x *scenResult) {
 	nw := simnet.New(int64(len(c.Ops))*31 + int64(c.N))
 	nw.Deliver = true
 	nw.SetCapture(false)
@@ -336,9 +409,15 @@ func bodyC01(c c01Case, x *vkit.Ctx) {
 			}
 			mon.MaxGap()
 			err := a.n.Serf.Leave()
+			a.everLeft = true
 			quiet := mon.MaxGap() < starve
 			stop(a)
-			if connected && mutual && err == nil && quiet {
+			// only for a member's first life: right after a restart memberlist is
+			// still settling the new incarnation against the peers' record of the old
+			// one, and which of "left"/"failed" an observer ends with then depends on
+			// message timing the harness neither owns nor can observe (seen once in
+			// ~1400 scenarios on the unchanged tree, not reproducible from its replay)
+			if connected && mutual && err == nil && quiet && a.life.Load() == 1 {
 				a.dep = depLeftConnected
 			} else {
 				a.dep = depUnconstrained
@@ -442,9 +521,59 @@ func bodyC01(c c01Case, x *vkit.Ctx) {
 			time.Sleep(50 * time.Millisecond)
 		}
 	}
+	// Serf can only re-merge groups that still know of each other: it reconnects
+	// to members it lists as failed and talks to those it lists as alive. Groups of
+	// running nodes with no such link (e.g. a node that re-joined through a peer
+	// which then died, while everybody else holds it as left) stay apart until an
+	// operator joins them - the harness plays that operator, once.
+	{
+		parent := map[string]string{}
+		var find func(string) string
+		find = func(a string) string {
+			if parent[a] == a {
+				return a
+			}
+			parent[a] = find(parent[a])
+			return parent[a]
+		}
+		running := map[string]*cnode{}
+		for _, cn := range nodes {
+			if cn.running {
+				parent[cn.name] = cn.name
+				running[cn.name] = cn
+			}
+		}
+		for _, cn := range running {
+			for _, m := range cn.n.Serf.Members() {
+				if _, ok := running[m.Name]; ok && (m.Status == serf.StatusAlive || m.Status == serf.StatusFailed) {
+					parent[find(cn.name)] = find(m.Name)
+				}
+			}
+		}
+		var first *cnode
+		for _, cn := range nodes {
+			if !cn.running {
+				continue
+			}
+			if first == nil {
+				first = cn
+				continue
+			}
+			if find(cn.name) != find(first.name) {
+				for try := 0; try < 20; try++ {
+					if n, err := cn.n.Serf.Join([]string{first.n.Tr.Addr()}, false); err == nil && n > 0 {
+						parent[find(cn.name)] = find(first.name)
+						x.Label("operator-join-of-unlinked-groups")
+						break
+					}
+					time.Sleep(50 * time.Millisecond)
+				}
+			}
+		}
+	}
 	mon.MaxGap()
 	begin := time.Now()
-	var okSince time.Time
+	var okSince, everOK time.Time
 	lastViews, lastChange := "", time.Now()
 	starvedRecently := time.Time{}
 	for {
@@ -459,6 +588,7 @@ func bodyC01(c c01Case, x *vkit.Ctx) {
 		if len(bad) == 0 {
 			if okSince.IsZero() {
 				okSince = time.Now()
+				everOK = okSince
 			}
 			if time.Since(okSince) >= 300*time.Millisecond {
 				break
@@ -466,15 +596,62 @@ func bodyC01(c c01Case, x *vkit.Ctx) {
 		} else {
 			okSince = time.Time{}
 			unchanged := time.Since(lastChange)
-			if unchanged >= 10*time.Second && (starvedRecently.IsZero() || time.Since(starvedRecently) >= 10*time.Second) {
+			if unchanged >= 6*time.Second && (starvedRecently.IsZero() || time.Since(starvedRecently) >= 6*time.Second) {
 				sig := "views-do-not-converge"
-				onlyLeaving := true
+				// Known shapes (finding F1 and its tombstone twin F2, see DESIGN.md 7.3):
+				//  A: a running member held as "leaving" by a claim it never refuted
+				//     (its own status time is not newer than the claimant's);
+				//  B: a member that left gracefully in an earlier life, re-joined and then
+				//     crashed, settled as "left": a peer that had not yet learned of the
+				//     re-join pushed its tombstone (status time + 1) before the member died.
+				kindA, kindB, other := 0, 0, 0
 				for _, b := range bad {
-					if !(strings.Contains(b, "sees running") && strings.Contains(b, "as leaving(listed=true)")) {
-						onlyLeaving = false
+					switch {
+					case strings.Contains(b, "sees running") && strings.Contains(b, "as leaving(listed=true)"):
+						kindA++
+					case strings.Contains(b, "sees crashed") && strings.Contains(b, "as left(listed=true)"):
+						name := strings.Fields(b[strings.Index(b, "sees crashed ")+len("sees crashed "):])[0]
+						ok := false
+						for _, sub := range nodes {
+							if sub.name == name && sub.everLeft && sub.life.Load() >= 2 {
+								ok = true
+							}
+						}
+						if ok {
+							kindB++
+						} else {
+							other++
+						}
+					default:
+						other++
 					}
 				}
+				if kindA > 0 && other == 0 {
+					for _, obs := range nodes {
+						if !obs.running {
+							continue
+						}
+						for _, m := range obs.n.Serf.Members() {
+							if m.Status != serf.StatusLeaving {
+								continue
+							}
+							for _, sub := range nodes {
+								if sub.name == m.Name && sub.running {
+									own, _ := sub.n.Serf.VerifStatusLTime(sub.name)
+									held, _ := obs.n.Serf.VerifStatusLTime(sub.name)
+									if held < own {
+										other++ // the subject did refute: not the known shape
+									}
+								}
+							}
+						}
+					}
+				}
+				onlyLeaving := other == 0 && kindA > 0 && kindB == 0
+				tombstone := other == 0 && kindB > 0
 				switch {
+				case tombstone:
+					sig = "rejoined-then-crashed-member-settled-left"
 				case onlyLeaving:
 					// the C02 finding F1 in the wild: a leave claim about a member that is
 					// running again which that member never refuted
@@ -487,9 +664,23 @@ func bodyC01(c c01Case, x *vkit.Ctx) {
 					sig = "running-member-not-alive"
 				}
 				x.Violationf(sig, "after healing, the views were wrong and unchanged for %v (no starvation): %v; views: %s", unchanged.Round(time.Millisecond), bad, v)
+				if os.Getenv("VERIF_C01_DEBUG") != "" {
+					for _, cn := range nodes {
+						if cn.n != nil {
+							fmt.Fprintf(os.Stderr, "===== log of %s (running=%v)\n%s\n", cn.name, cn.running, cn.n.Log.String())
+						}
+					}
+				}
 				return
 			}
-			if time.Since(begin) > 40*time.Second {
+			if time.Since(begin) > 25*time.Second {
+				// healed and quiet for 25 s, never once correct, and the scheduler was
+				// never starved in that time: the views do not settle at all
+				if starvedRecently.IsZero() && everOK.IsZero() {
+					sig := "views-never-settle"
+					x.Violationf(sig, "25 s after healing (no starvation) the views have never been right and keep changing: %v; views now: %s", bad, v)
+					return
+				}
 				x.Inconclusive("still-changing-or-starved")
 				return
 			}
